@@ -241,6 +241,47 @@ def skeleton(c, stl):
 
 
 def tab_plc(ctx):
+    """TAB-PLC: the source-level comparison with the reference program (cheap, names the deviating element); whatever it cannot
+    recognise - and everything in the thorough tier - is decided by folding the traversal for the mapping matrix of all 48 sizes
+    against Annex F (placement_exec), and the writer / reader for all 48 sizes (_rw_exec)."""
+    from .core import AnchorMissing
+    r = "TAB-PLC"
+    try:
+        obs = _tab_plc_shape(ctx)
+    except (AnchorMissing, KeyError, IndexError, TypeError) as ex:
+        obs = [Ob(r, "sweep:shape", False, "the traversal's source shape is not recognised (%s)" % (str(ex)[:120],)), Ob(r, "bits:shape", False, "the writer's / reader's source shape is not recognised")]
+    failed = [o for o in obs if not o.ok and not getattr(o, "info", False)]
+    if not failed and ctx.tier != "thorough":
+        return obs
+    trav = {"sweep", "utah", "corner1", "corner2", "corner3", "corner4", "idx", "floor"}
+
+    def cat(o):
+        k = o.key.split(":")
+        return k[1] if len(k) > 1 else k[0]
+    ok_t, det_t = placement_exec(ctx)
+    need_rw = any(cat(o) not in trav for o in failed) or ctx.tier == "thorough"
+    ok_w, det_w = (None, None)
+    if need_rw:
+        from . import p_symbols
+        allv = list(p_symbols.tables(ctx)["variants"])
+        ok_w, det_w = ctx.memo("rw_exec_%d" % len(allv), lambda: list(_rw_exec(ctx, allv)))
+    out = []
+    for o in obs:
+        if o.ok or getattr(o, "info", False):
+            out.append(o)
+        elif cat(o) in trav and ok_t:
+            out.append(Ob(r, o.key.split(":", 1)[1], True, o.what + " (source shape not recognised; decided by folding the traversal for all 48 sizes)", site=o.site))
+        elif cat(o) not in trav and ok_t and ok_w:
+            out.append(Ob(r, o.key.split(":", 1)[1], True, o.what + " (source shape not recognised; decided by folding writer and reader for all 48 sizes)", site=o.site))
+        else:
+            out.append(o)
+    out.append(Ob(r, "exec:traversal", bool(ok_t), ("cannot decide: " if ok_t is None else "") + "IndexTraversal::run folded for every size: " + str(det_t)))
+    if need_rw:
+        out.append(Ob(r, "exec:write-read", bool(ok_w), ("cannot decide: " if ok_w is None else "") + "writer and reader folded for every size: " + str(det_w)))
+    return out
+
+
+def _tab_plc_shape(ctx):
     r = "TAB-PLC"
     f = ctx.facts()
     obs = []
@@ -546,3 +587,253 @@ def _first_diff(a, b):
         if x != y:
             return {"position": k, "found": _desc(x), "annex_f": _desc(y)}
     return None
+
+
+# ---- TAB-PLC by folding the traversal for every mapping-matrix size ------------------------------------------------------
+
+def annex_f(nrow, ncol, trace=None):
+    """ISO/IEC 16022:2006 Annex F.3 (ECC 200 placement) with the row wrap of ISO/IEC 21471 (DMRE), written out independently:
+    [[module index of bit 1 (MSB) .. bit 8] for codeword 0, 1, ..], module index = row * ncol + col"""
+    arr = [0] * (nrow * ncol)
+    out = []
+
+    def module(row, col, bits):
+        if row < 0:
+            row += nrow
+            col += 4 - ((nrow + 4) % 8)
+        if col < 0:
+            col += ncol
+            row += 4 - ((ncol + 4) % 8)
+        if row >= nrow:
+            row -= nrow              # ISO/IEC 21471: rows wrap in the flat rectangular extensions
+            if trace is not None:
+                trace.add("row-wrap")
+        arr[row * ncol + col] = 1
+        bits.append(row * ncol + col)
+
+    def place(cells):
+        bits = []
+        for r, c in cells:
+            module(r, c, bits)
+        out.append(bits)
+
+    def utah(r, c):
+        place([(r - 2, c - 2), (r - 2, c - 1), (r - 1, c - 2), (r - 1, c - 1), (r - 1, c), (r, c - 2), (r, c - 1), (r, c)])
+    row, col = 4, 0
+    while True:
+        if row == nrow and col == 0:
+            if trace is not None:
+                trace.add("corner1")
+            place([(nrow - 1, 0), (nrow - 1, 1), (nrow - 1, 2), (0, ncol - 2), (0, ncol - 1), (1, ncol - 1), (2, ncol - 1), (3, ncol - 1)])
+        if row == nrow - 2 and col == 0 and ncol % 4 != 0:
+            if trace is not None:
+                trace.add("corner2")
+            place([(nrow - 3, 0), (nrow - 2, 0), (nrow - 1, 0), (0, ncol - 4), (0, ncol - 3), (0, ncol - 2), (0, ncol - 1), (1, ncol - 1)])
+        if row == nrow - 2 and col == 0 and ncol % 8 == 4:
+            if trace is not None:
+                trace.add("corner3")
+            place([(nrow - 3, 0), (nrow - 2, 0), (nrow - 1, 0), (0, ncol - 2), (0, ncol - 1), (1, ncol - 1), (2, ncol - 1), (3, ncol - 1)])
+        if row == nrow + 4 and col == 2 and ncol % 8 == 0:
+            if trace is not None:
+                trace.add("corner4")
+            place([(nrow - 1, 0), (nrow - 1, ncol - 1), (0, ncol - 3), (0, ncol - 2), (0, ncol - 1), (1, ncol - 3), (1, ncol - 2), (1, ncol - 1)])
+        while True:
+            if row < nrow and col >= 0 and not arr[row * ncol + col]:
+                utah(row, col)
+            row -= 2
+            col += 2
+            if not (row >= 0 and col < ncol):
+                break
+        row += 1
+        col += 3
+        while True:
+            if row >= 0 and col < ncol and not arr[row * ncol + col]:
+                utah(row, col)
+            row += 2
+            col -= 2
+            if not (row < nrow and col >= 0):
+                break
+        row += 3
+        col += 1
+        if not (row < nrow or col < ncol):
+            break
+    return out
+
+
+def placement_exec(ctx, dims=None):
+    """IndexTraversal::run folded for the mapping matrix of every symbol size with a recording visit function: the sequence of
+    (codeword number, eight module indices) must equal Annex F's.  The traversal never looks at module values, so one run per
+    size decides it for all contents.  (ok | None, detail)"""
+    if dims is None:
+        return ctx.memo("placement_exec", lambda: list(_placement_exec(ctx, None)))
+    return _placement_exec(ctx, dims)
+
+
+def _placement_exec(ctx, dims):
+    f = ctx.facts()
+    fn = IT + "::run"
+    b = f.thir.get(fn)
+    if b is None:
+        return None, "IndexTraversal::run not found"
+    from . import p_symbols
+    t = p_symbols.tables(ctx)
+    if dims is None:
+        dims = []
+        for v in t["variants"]:
+            su = t["setup"][v]
+            d = (su["height"] - 2 - 2 * su["extra_horizontal_alignments"], su["width"] - 2 - 2 * su["extra_vertical_alignments"])
+            if d not in dims:
+                dims.append(d)
+    pn = [p_["pat"]["name"] for p_ in b["params"] if p_.get("pat", {}).get("k") == "Bind"]
+    if len(pn) != 2:
+        return None, "run(&self, visit_fn): unexpected parameters"
+    adt = f.adts.get(IT)
+    if not adt:
+        return None, "IndexTraversal not found"
+    fields = [x["name"] for x in adt["variants"][0]["fieldtys"]]
+    total = 0
+    for (h, w) in dims:
+        me = {"__adt__": IT, "__variant__": "IndexTraversal"}
+        for i, nm in enumerate(fields):
+            val = w if nm == "width" else h if nm == "height" else T.Token(nm)
+            me[nm] = val
+            me["#%d" % i] = val
+        seen = []
+
+        def on_call(folder, c, seen=seen):
+            cc = T.canon(T.callee_of(c))
+            if cc == "HOOK::visit":
+                a = [folder.fold(x) for x in c["args"]]
+                seen.append((a[0], list(a[1]) if isinstance(a[1], (list, tuple)) else a[1]))
+                return ()
+            return NotImplemented
+        fo = T.Folder(f, env={pn[0]: me, pn[1]: {"__fn__": "HOOK::visit"}}, on_call=on_call, effects=True, local_calls=3)
+        fo.max_iter = 100000
+        try:
+            fo.run(b["body"])
+        except T.Trap as ex:
+            return False, "%d x %d: the traversal traps: %s" % (h, w, ex)
+        except T.Undecidable as ex:
+            return None, "%d x %d: the traversal does not fold (%s)" % (h, w, ex)
+        ref = annex_f(h, w)
+        if [k for k, _ in seen] != list(range(len(seen))):
+            return False, "%d x %d: codeword numbers are not 0, 1, 2, .. (%r ..)" % (h, w, [k for k, _ in seen][:5])
+        got = [x for _, x in seen]
+        if got != ref:
+            k = next((k for k in range(min(len(got), len(ref))) if got[k] != ref[k]), min(len(got), len(ref)))
+            return False, "%d x %d mapping matrix: %d codewords placed (Annex F: %d); codeword %d goes to modules %r, Annex F says %r" % (
+                h, w, len(got), len(ref), k, [(x // w, x % w) for x in got[k]] if k < len(got) and all(isinstance(x, int) for x in got[k]) else None,
+                [(x // w, x % w) for x in ref[k]] if k < len(ref) else None)
+        total += len(got)
+    return True, "%d mapping-matrix sizes, %d codeword placements equal to Annex F" % (len(dims), total)
+
+
+def _rw_exec(ctx, variants):
+    """MatrixMap::new_with_codewords(data, size) and MatrixMap::codewords() folded (M = bool) for the given sizes with two
+    codeword vectors (a pattern and its complement): bit k (MSB first) of codeword i must land in the module Annex F assigns to
+    it, the fixed corner pattern must be there for the sizes that have it, every module is accounted for, and reading returns
+    the vector that was written.  (ok | None, detail)"""
+    f = ctx.facts()
+    from . import p_symbols
+    t = p_symbols.tables(ctx)
+    wn = next((n for n in f.thir if T.canon(n).endswith("MatrixMap::new_with_codewords")), None)
+    rn = next((n for n in f.thir if T.canon(n).endswith("MatrixMap::codewords")), None)
+    if wn is None or rn is None:
+        return None, "new_with_codewords / codewords not found"
+    wb, rb = f.thir[wn], f.thir[rn]
+    wp = [p_["pat"]["name"] for p_ in wb["params"] if p_.get("pat", {}).get("k") == "Bind"]
+    rp = [p_["pat"]["name"] for p_ in rb["params"] if p_.get("pat", {}).get("k") == "Bind"]
+    if len(wp) != 2 or len(rp) != 1:
+        return None, "unexpected parameters"
+    n = 0
+    for v in variants:
+        su = t["setup"][v]
+        h, w = su["height"] - 2 - 2 * su["extra_horizontal_alignments"], su["width"] - 2 - 2 * su["extra_vertical_alignments"]
+        ref = annex_f(h, w)
+        ncw = t["data"][v] + su["num_ecc_blocks"] * su["num_ecc_per_block"] if isinstance(t["data"].get(v), int) else len(ref)
+        if ncw != len(ref):
+            return False, "%s: %d codewords but Annex F places %d in a %d x %d mapping matrix" % (v, ncw, len(ref), h, w)
+        for flip in ((0, 255) if h * w <= 900 else (0,)):
+            data = [((37 * i + 11) % 256) ^ flip for i in range(len(ref))]
+            fo = T.Folder(f, env={wp[0]: list(data), wp[1]: {"__adt__": "symbol_size::SymbolSize", "__variant__": v}}, effects=True, local_calls=6)
+            fo.const_values = {"HIGH": True, "LOW": False}
+            fo.sym_eq = lambda a_, b_: False
+            fo.views = True
+            fo.max_iter = 100000
+            try:
+                mm = fo.run(wb["body"])
+            except T.Trap as ex:
+                return False, "%s: writing traps: %s" % (v, ex)
+            except T.Undecidable as ex:
+                return None, "%s: new_with_codewords does not fold (%s)" % (v, ex)
+            ent = mm.get("entries") if isinstance(mm, dict) else None
+            if not (isinstance(ent, list) and len(ent) == h * w):
+                return False, "%s: the written map has %s modules, expected %d" % (v, len(ent) if isinstance(ent, list) else None, h * w)
+            ent = [x.load() if isinstance(x, T.Ref) else x for x in ent]
+            want = [None] * (h * w)
+            for i, cells in enumerate(ref):
+                for k, m in enumerate(cells):
+                    want[m] = bool((data[i] >> (7 - k)) & 1)
+            rest = [m for m in range(h * w) if want[m] is None]
+            if t["padding"].get(v):
+                corner = {(h - 2) * w + (w - 2): True, (h - 2) * w + (w - 1): False, (h - 1) * w + (w - 2): False, (h - 1) * w + (w - 1): True}
+                if sorted(rest) != sorted(corner):
+                    return False, "%s: the modules no codeword covers are %r, not the lower right 2x2 corner" % (v, [(m // w, m % w) for m in rest])
+                for m, val in corner.items():
+                    want[m] = val
+            elif rest:
+                return False, "%s: modules %r are covered by no codeword" % (v, [(m // w, m % w) for m in rest[:4]])
+            if ent != want:
+                m = next(m for m in range(h * w) if ent[m] != want[m])
+                owner = next(((i, k) for i, cells in enumerate(ref) for k, mm2 in enumerate(cells) if mm2 == m), None)
+                return False, "%s: module (%d, %d) is %r after writing, Annex F puts %s there (expected %r)" % (
+                    v, m // w, m % w, ent[m], ("bit %d (MSB = 1) of codeword %d" % (owner[1] + 1, owner[0])) if owner else "the fixed corner pattern", want[m])
+            fo2 = T.Folder(f, env={rp[0]: mm}, effects=True, local_calls=6)
+            fo2.const_values = {"HIGH": True, "LOW": False}
+            fo2.sym_eq = lambda a_, b_: False
+            fo2.views = True
+            fo2.max_iter = 100000
+            try:
+                back = fo2.run(rb["body"])
+            except T.Trap as ex:
+                return False, "%s: reading traps: %s" % (v, ex)
+            except T.Undecidable as ex:
+                return None, "%s: codewords() does not fold (%s)" % (v, ex)
+            back = [x.load() if isinstance(x, T.Ref) else x for x in back] if isinstance(back, list) else back
+            if back != data:
+                i = next((i for i in range(min(len(back), len(data))) if back[i] != data[i]), min(len(back), len(data))) if isinstance(back, list) else 0
+                return False, "%s: reading the written matrix returns %s for codeword %d, %d was written" % (v, back[i] if isinstance(back, list) and i < len(back) else back, i, data[i] if i < len(data) else -1)
+        n += 1
+    return True, "%d symbol sizes: writing puts every codeword bit (MSB first) where Annex F says, the fixed corner is in place, reading returns what was written" % n
+
+
+def plc_rw(ctx):
+    """PLC-RW: the writer and the reader of the mapping matrix, folded per size (see _rw_exec); quick: the sizes up to a 26 x 26 /
+    12 x 64-module mapping matrix (they include all four corner cases, the fixed corner pattern and the DMRE row wrap), thorough: all 48"""
+    r = "PLC-RW"
+    f = ctx.facts()
+    from . import p_symbols
+    t = p_symbols.tables(ctx)
+
+    def area(v):
+        su = t["setup"][v]
+        return (su["height"] - 2 - 2 * su["extra_horizontal_alignments"]) * (su["width"] - 2 - 2 * su["extra_vertical_alignments"])
+    def wraps(v):
+        su = t["setup"][v]
+        c = set()
+        annex_f(su["height"] - 2 - 2 * su["extra_horizontal_alignments"], su["width"] - 2 - 2 * su["extra_vertical_alignments"], c)
+        return "row-wrap" in c
+    wrap_sizes = sorted((v for v in t["variants"] if wraps(v)), key=area)[:1]
+    vs = [v for v in t["variants"] if ctx.tier == "thorough" or area(v) <= 400 or v in wrap_sizes]
+    ok, det = ctx.memo("rw_exec_%d" % len(vs), lambda: list(_rw_exec(ctx, vs)))
+    obs = [Ob(r, "write-read", bool(ok), ("cannot decide: " if ok is None else "") + str(det))]
+    # which placement cases the folded sizes exercise (so that the quick subset is not vacuous)
+    cases = set()
+    for v in vs:
+        su = t["setup"][v]
+        annex_f(su["height"] - 2 - 2 * su["extra_horizontal_alignments"], su["width"] - 2 - 2 * su["extra_vertical_alignments"], cases)
+        if t["padding"].get(v):
+            cases.add("fixed-corner")
+    obs.append(Ob(r, "cases", {"corner1", "corner2", "corner3", "corner4", "fixed-corner", "row-wrap"} <= cases,
+                  "the folded sizes (%d) exercise all four corner cases, the fixed corner pattern and the DMRE row wrap: %s" % (len(vs), sorted(cases))))
+    return obs
